@@ -12,6 +12,7 @@ import ctypes
 import itertools
 import json
 import math
+import io
 import os
 import tempfile
 
@@ -695,9 +696,116 @@ def _probe(o):
     _probe_tables(o.tables)
 
 
+def _ms(ts, precision, nrep, trees):
+    import io
+    out = io.StringIO()
+    tskit.write_ms(ts, out, print_trees=trees, precision=precision, num_replicates=nrep)
+    return len(out.getvalue())
+
+
+def _variant_views(ts, site, samples, remove_missing, mds):
+    v = tskit.Variant(ts, samples=samples)
+    v.decode(site)
+    return (v.counts(), v.frequencies(remove_missing=remove_missing), v.states(missing_data_string=mds), v.has_missing_data,
+            v.num_missing, v.num_alleles, str(v), v.copy().genotypes.sum())
+
+
+def _md_vector(tc, key, default):
+    t = tc.nodes.copy()
+    t.metadata_schema = tskit.MetadataSchema({"codec": "json"})
+    t.packset_metadata([b'{"a": 1, "b": {"c": [1, 2]}}'] * t.num_rows)
+    return t.metadata_vector(key, default_value=default) if default != "NOTSET" else t.metadata_vector(key)
+
+
+def _aliases_and_rest():
+    """Deprecated aliases, alternative entry points and accessors that the main catalogue reaches only through their modern names."""
+    for tgt in ("tree", "nulltree"):
+        for mname in ("get_parent", "get_children", "get_time", "get_branch_length", "get_population", "get_num_samples",
+                      "get_num_tracked_samples"):
+            C(f"Tree.{mname}", tgt, (lambda mname: lambda t, a: consume(getattr(t, mname)(a[0])))(mname), [NODE_VR])
+        C("Tree.get_leaves", tgt, lambda t, a: consume(t.get_leaves(a[0])), [NODE_NULLOK])  # a traversal: -1 / None = from all roots
+        for mname in ("get_mrca", "get_tmrca"):
+            C(f"Tree.{mname}", tgt, (lambda mname: lambda t, a: getattr(t, mname)(a[0], a[1]))(mname), [NODE_VR, NODE_VR])
+        C("Tree.mrca/multi", tgt, lambda t, a: (t.mrca(a[0], a[1], a[2]), t.tmrca(a[0], a[1], a[2])), [NODE_VR, NODE_VR, NODE_VR])
+        C("Tree.arrays", tgt, lambda t, a: [int(np.sum(x)) for x in (t.parent_array, t.left_child_array, t.right_child_array, t.left_sib_array,
+                                                                       t.right_sib_array, t.num_children_array, t.edge_array)]
+          + [t.index, t.interval, t.span, t.mid, t.num_sites, t.num_mutations, len(list(t.sites())), len(list(t.mutations())),
+             t.get_index(), t.get_interval(), t.get_length(), t.get_sample_size(), t.sample_size, t.get_root() if t.has_single_root else None,
+             t.get_total_branch_length(), t.get_parent_dict(), t.parent_dict, t.as_dict_of_dicts(), t.has_multiple_roots, t.left_root,
+             t.right_root, t.get_num_mutations()], [])
+    C("TreeSequence.get_time/get_population", "ts", lambda ts, a: (ts.get_time(a[0]), ts.get_population(a[0])), [NODE_PY])
+    C("TreeSequence.get_samples", "ts", lambda ts, a: ts.get_samples(population_id=a[0]), [POP_ANY])
+    C("TreeSequence.pairwise_diversity", "ts", lambda ts, a: (ts.pairwise_diversity(samples=a[0]), ts.get_pairwise_diversity(a[0])), [SAMPLE_LIST])
+    C("TreeSequence.legacy-iterators", "ts", lambda ts, a: (len(list(ts.records())), len(list(ts.edgesets())), list(ts.breakpoints(as_array=a[0])),
+                                                             ts.get_num_records(), ts.get_num_trees(), ts.get_num_nodes(), ts.get_num_sites(),
+                                                             ts.get_num_mutations(), ts.get_sample_size(), ts.sample_size, ts.get_sequence_length(),
+                                                             len(ts.aslist(sample_lists=True)), ts.has_reference_sequence(), ts.file_uuid,
+                                                             len(ts.tables_dict), ts.table_metadata_schemas), [BOOLANY])
+    C("TreeSequence.removed-methods", "ts", lambda ts, a: [f() for f in (ts.diffs, ts.newick_trees, ts.to_nexus)][a[0]],
+      [Slot(lambda o: 0, lambda o: [(v, True) for v in (0, 1, 2)], "which")])
+    C("TreeSequence.columns", "ts", lambda ts, a: [len(getattr(ts, n)) for n in (
+        "edges_child", "edges_left", "edges_parent", "edges_right", "indexes_edge_insertion_order", "indexes_edge_removal_order",
+        "individuals_flags", "migrations_dest", "migrations_left", "migrations_node", "migrations_right", "migrations_source", "migrations_time",
+        "mutations_node", "mutations_parent", "mutations_site", "mutations_time", "nodes_flags", "nodes_individual", "nodes_population",
+        "nodes_time", "sites_position", "individual_times", "individual_populations")]
+      + [len(ts.individual_locations) if _rect(ts) else 0], [])
+    C("TreeSequence.write_nexus/write_fasta", "ts", lambda ts, a: (ts.write_nexus(io.StringIO(), precision=a[0], include_alignments=a[1]),
+                                                                   ts.write_fasta(io.StringIO(), wrap_width=a[2], missing_data_character="?")),
+      [PRECISION, BOOLANY, Slot(lambda o: 60, lambda o: [(v, None) for v in [-1, 0, 1, 7, 2 ** 31, None, "a", 1.5]], "wrap_width")])
+    C("tskit.write_ms", "ts", lambda ts, a: _ms(ts, a[0], a[1], a[2]),
+      [PRECISION, Slot(lambda o: 1, lambda o: [(v, None) for v in [-1, 0, 1, 2, None, "a", 1.5]], "num_replicates"), BOOLANY])
+    C("TreeSequence.trait_regression", "ts", lambda ts, a: ts.trait_regression(a[0], a[1], windows=a[2]), [WEIGHTS, WEIGHTS, WINDOWS])
+    C("TreeSequence.check_index", "ts", lambda ts, a: tskit.TreeSequence.check_index(a[0], a[1]), [INTANY, INTANY])
+    C("Variant.views", "ts", lambda ts, a: _variant_views(ts, a[0], a[1], a[2], a[3]),
+      [SITE, NODE_LIST, BOOLANY, Slot(lambda o: None, lambda o: [(v, None) for v in [None, "N", "", "NN", 3, b"N"]], "missing_data_string")])
+    C("TableCollection.map_ancestors", "tables", lambda tc, a: list(tc.map_ancestors(a[0], a[1])), [NODE_LIST, NODE_LIST])
+    C("TableCollection.has_index/equals", "tables", lambda tc, a: (tc.has_index(), tc.equals(tc.copy(), ignore_metadata=a[0], ignore_ts_metadata=a[0],
+                                                                                               ignore_provenance=a[0], ignore_timestamps=a[0],
+                                                                                               ignore_tables=a[0], ignore_reference_sequence=a[0]),
+                                                                    tc.assert_equals(tc.copy(), ignore_metadata=a[0]), tc.name_map if hasattr(tc, "name_map") else None,
+                                                                    tc.table_name_map, tc.metadata_bytes, tc.file_uuid, tc.has_reference_sequence()), [BOOLANY])
+    for tname in ("nodes", "edges", "sites", "mutations", "individuals", "populations", "migrations"):
+        C(f"{tname}.drop_metadata/reset", "tables", (lambda tname: lambda tc, a: (getattr(tc, tname).drop_metadata(keep_schema=a[0]),
+                                                                                      getattr(tc, tname).assert_equals(getattr(tc, tname).copy(), ignore_metadata=a[0]),
+                                                                                      getattr(tc, tname).max_rows, getattr(tc, tname).max_rows_increment,
+                                                                                      _probe_tables(tc), getattr(tc, tname).reset(), _probe_tables(tc)))(tname), [BOOLANY])
+    C("provenances.packset_timestamp/reset", "tables", lambda tc, a: (tc.provenances.packset_timestamp(a[0]), tc.provenances.packset_record(a[0]), _probe_tables(tc),
+                                                                      tc.provenances.reset(), _probe_tables(tc)),
+      [Slot(lambda o: [], lambda o: [(v, None) for v in [[], ["a"], ["a"] * 1000, [b"a"], [None], "abc", 3, [["a"]], ["é" * 70000]]], "string-list")])
+    C("nodes.metadata_vector", "tables", lambda tc, a: _md_vector(tc, a[0], a[1]),
+      [Slot(lambda o: "a", lambda o: [(v, None) for v in ["a", "b", ["b", "c"], ["b", "x"], "zz", [], None, 3, ["a", "b"]]], "key"),
+       Slot(lambda o: "NOTSET", lambda o: [(v, None) for v in ["NOTSET", None, 0, [1, 2], "s"]], "default_value")])
+    C("tskit.pack_*", "ts", lambda ts, a: (tskit.pack_bytes(a[0]), tskit.pack_strings(a[0]), tskit.pack_arrays(a[0])),
+      [Slot(lambda o: [], lambda o: [(v, None) for v in [[], [b"a"], ["a"], [[1.0, 2.0], []], [None], "abc", 3, [[[1]]], [b"a" * 70000], [["a"]]]], "list")])
+    C("tskit.unpack_arrays", "ts", lambda ts, a: tskit.unpack_arrays(np.arange(6, dtype=np.float64), a[0]),
+      [Slot(lambda o: np.array([0, 2, 6], dtype=np.uint32), lambda o: [(np.array(v, dtype=dt), None) for dt in (np.uint32, np.uint64, np.int64)
+                                                                        for v in ([0, 7], [3, 1], [0, 2 ** 31], [], [6], [1, 6], [0, 6, 6, 6])], "offsets")])
+    C("tskit.random_nucleotides/is_unknown_time", "ts", lambda ts, a: (tskit.random_nucleotides(a[0], seed=a[1]), tskit.is_unknown_time(a[2])),
+      [Slot(lambda o: 5, lambda o: [(v, None) for v in [-1, 0, 1, 1.0, 1.5, NAN, INF, None, "a", 2 ** 20]], "length"),
+       Slot(lambda o: 1, lambda o: [(v, None) for v in [-1, 0, 2 ** 32, 2 ** 64, None, "a", 1.5]], "seed"),
+       Slot(lambda o: 1.0, lambda o: [(v, None) for v in [NAN, tskit.UNKNOWN_TIME, [tskit.UNKNOWN_TIME, 1.0], [], None, "a", [[NAN]], np.zeros(3, dtype=np.int32)]], "time")])
+    C("tskit.all_trees", "ts", lambda ts, a: (sum(1 for _ in tskit.all_trees(a[0])), sum(1 for _ in tskit.all_tree_shapes(a[0])),
+                                              sum(1 for _ in tskit.all_tree_labellings(tskit.Tree.generate_balanced(3)))),
+      [Slot(lambda o: 3, lambda o: [(v, None) for v in [-1, 0, 1, 2, 4, None, "a", 1.5]], "num_leaves")])
+    C("tskit.parse_*", "ts", lambda ts, a: _parse_junk(a[0], a[1]),
+      [Slot(lambda o: "nodes", lambda o: [(v, None) for v in ["nodes", "edges", "sites", "mutations", "individuals", "populations", "migrations", "fam"]], "which"),
+       Slot(lambda o: "", lambda o: [(v, None) for v in ["", "x", "a\tb\n1\n", "\n\n", "left\tright\tparent\tchild\n0\t1\t1\t0,2,,\n", "\t\t\t\n" * 3,
+                                                          "position\tancestral_state\n1e999\tA\n", "site\tnode\tderived_state\n-1\t-1\t\n", "é" * 100,
+                                                          "1 2 3 4 5 6\n1 2 3\n"]], "text")])
+
+
+def _parse_junk(which, text):
+    f = io.StringIO(text)
+    if which == "fam":
+        return tskit.parse_fam(f).num_rows
+    return getattr(tskit, "parse_" + which)(f, strict=False).num_rows
+
+
+
 _tree_methods()
 _ts_methods()
 _table_methods()
+_aliases_and_rest()
 
 # ----------------------------------------------------------------------------- cases
 
